@@ -96,15 +96,21 @@ func (h *Hub) HandleShipHandshakeStateUpdate(ski string, state model.ShipState) 
 
 	service := h.ServiceForSKI(ski)
 
+	// storing the state and taking the notification count is one step, see setAndNotifyPairingState
+	h.muxPairingNotify.Lock()
 	existingDetails := service.ConnectionStateDetail()
 	existingState := existingDetails.State()
-	if existingState != pairingState || !errors.Is(existingDetails.Error(), state.Error) {
+	changed := existingState != pairingState || !errors.Is(existingDetails.Error(), state.Error)
+	if changed {
 		service.SetConnectionStateDetail(pairingDetail)
+	}
+	notified := h.pairingNotifications[ski]
+	h.muxPairingNotify.Unlock()
 
+	if changed {
 		// always send a delayed update, as the processing of the new state has to be done
 		// and the SHIP message has to be received by the other service before
 		// acting upon the new state is safe
-		notified := h.pairingNotificationCount(ski)
 		go func() {
 			<-time.After(time.Millisecond * 500)
 
@@ -131,9 +137,22 @@ func (h *Hub) pairingNotificationCount(ski string) uint64 {
 	return h.pairingNotifications[ski]
 }
 
-// report a pairing state synchronously, pending delayed notifications of older states are dropped
-func (h *Hub) notifyPairingDetail(ski string, detail *api.ConnectionStateDetail) {
+// set a pairing state and report it synchronously, pending delayed notifications of older states
+// are dropped
+//
+// setting the state and counting the notification is one step with respect to
+// HandleShipHandshakeStateUpdate: a handshake state stored at the same time is either older, then
+// it is overwritten and its delayed notification is dropped, or newer, then it is notified later
+//
+// if onlyFrom is given, nothing happens unless the service is in that state
+func (h *Hub) setAndNotifyPairingState(ski string, service *api.ServiceDetails, state api.ConnectionState, onlyFrom ...api.ConnectionState) {
 	h.muxPairingNotify.Lock()
+	detail := service.ConnectionStateDetail()
+	if len(onlyFrom) > 0 && detail.State() != onlyFrom[0] {
+		h.muxPairingNotify.Unlock()
+		return
+	}
+	detail.SetState(state)
 	if h.pairingNotifications == nil {
 		h.pairingNotifications = make(map[string]uint64)
 	}
